@@ -12,6 +12,7 @@ package main
 // integers around 8 bytes, SET / SEQUENCE OF element tags.
 
 import (
+	stdx509 "crypto/x509"
 	"sort"
 	"strings"
 
@@ -119,6 +120,31 @@ func genA1G(c *corpus, r *hx.Rng, tier string, emit func(name string, data []byt
 		walk(b.data, 0, len(b.data), 0, &tl)
 		for _, t := range tl {
 			e := b.data[t.off : t.off+t.hdr+t.length]
+			if len(e) >= 2 && !seenEl[string(e)] {
+				seenEl[string(e)] = true
+				elems = append(elems, e)
+			}
+		}
+	}
+	// objects the library's own encoders do not produce: an RSA private key (PKCS#1, with an additional prime
+	// entry), DSA parameters, RSA-PSS parameters, AES-GCM parameters
+	sha256OID := []byte{0x06, 0x09, 0x60, 0x86, 0x48, 0x01, 0x65, 0x03, 0x04, 0x02, 0x01}
+	mgf1OID := []byte{0x06, 0x09, 0x2a, 0x86, 0x48, 0x86, 0xf7, 0x0d, 0x01, 0x01, 0x08}
+	three := cat([]byte{2, 1, 7}, []byte{2, 1, 3}, []byte{2, 2, 0, 0x80})
+	hashAlg := tlvOf(0x30, cat(sha256OID, []byte{5, 0}))
+	extraObjs := [][]byte{
+		stdx509.MarshalPKCS1PrivateKey(rsaKey),
+		tlvOf(0x30, cat([]byte{2, 1, 1}, three, three, []byte{2, 1, 5}, tlvOf(0x30, cat(tlvOf(0x30, three), tlvOf(0x30, three))))),
+		tlvOf(0x30, three),
+		tlvOf(0x30, cat(tlvOf(0xa0, hashAlg), tlvOf(0xa1, tlvOf(0x30, cat(mgf1OID, hashAlg))), tlvOf(0xa2, []byte{2, 1, 32}))),
+		tlvOf(0x30, cat(tlvOf(0xa0, hashAlg), tlvOf(0xa1, tlvOf(0x30, cat(mgf1OID, hashAlg))), tlvOf(0xa2, []byte{2, 1, 32}), tlvOf(0xa3, []byte{2, 1, 1}))),
+		tlvOf(0x30, cat(tlvOf(4, make([]byte, 12)), []byte{2, 1, 16})),
+	}
+	for _, o := range extraObjs {
+		var tl []tlv
+		walk(o, 0, len(o), 0, &tl)
+		for _, t := range tl {
+			e := o[t.off : t.off+t.hdr+t.length]
 			if len(e) >= 2 && !seenEl[string(e)] {
 				seenEl[string(e)] = true
 				elems = append(elems, e)
